@@ -329,7 +329,10 @@ def run_cases(exe, cases, batch=50, timeout=120, prelude=(), leak=False, workers
                 return
             bad = done[-1]
             bad.fault = dict(r.fault)
-            bad.fault["op_index"] = len(bad.rawout) - len(bad.setup)
+            nout = len(bad.rawout)
+            if bad.rawout and bad.rawout[-1].startswith("FAULT "):
+                nout -= 1          # the harness itself reported the fault as the op's result line
+            bad.fault["op_index"] = nout - len(bad.setup)
             bad.fault["stderr_tail"] = r.stderr[-1500:]
             k = todo.index(bad)
             todo = todo[k + 1:]
